@@ -1788,9 +1788,11 @@ impl PatternFusion for GroupedQueryAttentionMatMulFusion {
         if let Some(transpose_op) = pat_match
             .node_id("transpose")
             .and_then(|id| graph.get_operator::<Transpose>(id))
-            // Permute must transpose only last two dims
-            && transpose_op.perm.as_deref() == Some(&[0, 1, 3, 2])
         {
+            // Permute must transpose only last two dims
+            if transpose_op.perm.as_deref() != Some(&[0, 1, 3, 2]) {
+                return Err(FusionError::CheckFailed("unsupported RHS transpose"));
+            }
             transpose_rhs = true;
 
             if let Some(matmul) = pat_match
